@@ -46,6 +46,38 @@ CHECKS.update({
    design_ref='DESIGN.md 4 (C19)'),
 })
 
+PTRUST = ("z3 (branch feasibility and validity queries); CPython; the harness-side stubs listed in the evidence file; "
+          "bounds as written in the evidence file")
+CHECKS.update({
+ 'C04': dict(
+   category='model_checking', engine='sympeg+symx',
+   technique='SMT (z3) validity queries over priority-exact encodings of the live base-type regexes (symre/sympeg) and symbolic execution (symx) of the live STRING processor on a symbolic string; counterexamples replayed through model_from_str',
+   text=("Bounded solver verdict: for every string of <= 4 (quick) / 6 (thorough) characters over the 103-symbol alphabet, both quote characters, "
+         "every escape shape and several same-line continuations, the live STRING regex match ends exactly at the closing quote and the live processor returns the string; "
+         "for every decimal integer / float literal of <= 6 / 9 characters the live INT / FLOAT / STRICTFLOAT / NUMBER matchers take exactly the literal. "
+         "int()/float() values are trusted CPython builtins (witnesses replayed)."),
+   design_ref='DESIGN.md 4 (C04)'),
+ 'C10': dict(
+   category='model_checking', engine='symx', note=PTRUST,
+   technique='path-forking symbolic execution (symx, z3-decided branches) of the real providers.FQN.__call__ over opaque symbolic names; per-path z3 validity query against the containment-chain semantics; counterexamples replayed with concrete names',
+   text=("Solver verdict over names: on 3 (quick) / 8 (thorough) real model shapes with <= 8 named objects, every referencing object and 1-3 name parts, every feasible "
+         "path of the real FQN provider is explored with all names symbolic (uninterpreted sort, sibling-uniqueness assumed) and its result is proved equal to the qualified-name "
+         "semantics for all name assignments of that path, except where the recorded root cause (walk over all public attributes) explains the difference."),
+   design_ref='DESIGN.md 4 (C10)'),
+ 'C08': dict(
+   category='exploration', engine='symx', note=PTRUST,
+   technique='solver-steered exhaustive path exploration (symx): whole real loads under every feasible Postponed schedule (symbolic boolean per reference and attempt)',
+   text=("Path-exhaustive, finite space: every postponement schedule (up to 2 / 3 postponable attempts per reference) of 3 / 5 reference-list models is one real load; "
+         "each successful load must give the textual order. This is exhaustive enumeration steered by z3, not a solver verdict over a large space."),
+   design_ref='DESIGN.md 4 (C08)'),
+ 'C09': dict(
+   category='exploration', engine='symx', note=PTRUST,
+   technique='solver-steered path exploration (symx) of whole real loads over a symbolic dependency matrix; least-fixpoint oracle as a z3 formula checked for validity under each path condition',
+   text=("Path-exhaustive over dependency matrices of 3 (quick) / 4 (thorough) references in one- and two-file models: termination (call budget), success iff the least fixpoint "
+         "resolves everything, and the error names exactly the unresolved references; the oracle is a z3 formula over the matrix entries the resolver never looked at."),
+   design_ref='DESIGN.md 4 (C09)'),
+})
+
 NA = {
  'C16': "history quantifier over whole-program API calls; no data dimension to make symbolic — only enumeration of concrete call sequences would remain (DESIGN.md 5)",
  'C17': "decided by file-system I/O, glob, abspath and repository objects handed between nested real loads; only enumeration of import graphs would remain (DESIGN.md 5)",
